@@ -152,19 +152,38 @@ def models():
             return some(DateC(d.day, h, m, s))
         return none()
 
-    @reg(r'^TimeDelta::try_days$|^TimeDelta::days$', 'chrono:TimeDelta::days')
+    @reg(r'^TimeDelta::try_days$|^TimeDelta::days$', 'chrono:TimeDelta::days (try_days: None beyond +-i64::MAX milliseconds; days: panics there)')
     def days(ctx, args, callee):
         v = args[0]
-        return some(('days', v)) if 'try_days' in callee else ('days', v)
+        lim = BitVecVal(((1 << 63) - 1) // 86400000, 64)
+        fits = And(v <= lim, v >= -lim)
+        if 'try_days' in callee:
+            return some(('days', v)) if ctx.decide(fits) else none()
+        ctx.obligation(fits, 'TimeDelta::days out of bounds')
+        return ('days', v)
+
+    @reg(r'^NaiveDate::checked_(add|sub)_signed$', 'chrono:NaiveDate::checked_add_signed (None outside the years chrono can represent)')
+    def checked_add(ctx, args, callee):
+        d = ctx.deref(args[0]); n = args[1][1]
+        r = d.day + n if 'add' in callee else d.day - n
+        span = BitVecVal(262000 * 365, 64)
+        okc = And(n <= span, n >= -span, r <= span, r >= -span)
+        if ctx.decide(okc):
+            return some(DateC(r, d.h, d.m, d.s))
+        return none()
 
     @reg(r'^<NaiveDate as (Sub|Add)<TimeDelta>>::(sub|add)$', 'chrono:NaiveDate +/- days')
     def date_arith(ctx, args, callee):
         d = ctx.deref(args[0]); n = args[1][1]
         return DateC(d.day - n if callee.endswith('sub') else d.day + n, d.h, d.m, d.s)
 
-    @reg(r'^parse_date_string$|^chrono_english::parse_date_string$', 'chrono-english:parse_date_string(uninterpreted)')
+    @reg(r'^parse_date_string$|^chrono_english::parse_date_string$', 'chrono-english:parse_date_string (Ok(some instant of its own choosing) | Err; contract: does not panic)')
     def pds(ctx, args, callee):
-        raise Unmodelled('chrono-english')
+        if ctx.decide(ctx.fresh_bool('chrono_english_ok')):
+            d = ctx.fresh_bv('ce_day', 64)
+            ctx.assume(And(d >= 0, d < 100000))
+            return ok(DateC(d, ctx.fresh_bv('ce_h', 32) & 15, ctx.fresh_bv('ce_m', 32) & 31, ctx.fresh_bv('ce_s', 32) & 31))
+        return err(Str('bad date'))
 
     return out
 
@@ -283,12 +302,26 @@ def cli_replay_interval():
     return rep
 
 
+def cli_replay_offset(lit, off):
+    """files stamped at noon of the day the literal denotes and of the day after it: `modified = '<lit>'` selects the first only"""
+    def rep():
+        import datetime
+        exe = common.native_binary()
+        noon = datetime.datetime.now(datetime.timezone.utc).replace(hour=12, minute=0, second=0, microsecond=0)
+        t0 = int((noon + datetime.timedelta(days=off)).timestamp()); t1 = t0 + 86400
+        r = common.run_cli(exe, ["name from . where modified = '%s'" % lit], {'that-day': {'size': 1, 'mtime': t0}, 'day-after': {'size': 1, 'mtime': t1}}, env={'TZ': 'UTC'})
+        rows = sorted(r['stdout'].split('\n')[:-1])
+        return rows != ['that-day'] or r['status'] != 0, "where modified = '%s' over files dated %+d and %+d days from today -> %r (status %s %s), expected ['that-day']" % (
+            lit, off, off + 1, rows, r['status'], r['stderr'][:80])
+    return rep
+
+
 def fam_relative(sess):
     prog = sess.prog
     fam = 'relative'
     ex = sess.executor(models(), unwind=6)
     pd = prog.find_free('parse_datetime')
-    for lit, off in (('today', 0), ('yesterday', -1), ('+3', 3), ('-2', -2), ('+0', 0)):
+    for lit, off in (('today', 0), ('yesterday', -1), ('+3', 3), ('-2', -2), ('+0', 0), ('-1000', -1000), ('+365', 365), ('-12345', -12345)):
         box = {}
 
         def run(ctx, lit=lit):
@@ -310,7 +343,7 @@ def fam_relative(sess):
             if d != 0 or now is None:
                 if not box.get('viol'):
                     box['viol'] = True
-                    sess.violated(name, 'relative/rejected', '%r is not accepted' % lit, {}, cli_replay_literal(lit), fam)
+                    sess.violated(name, 'relative/rejected', '%r is not accepted' % lit, {}, cli_replay_offset(lit, off), fam)
                 return
             pair = res.p[0][0]
             s_, f_ = pair.f[0], pair.f[1]
@@ -320,7 +353,7 @@ def fam_relative(sess):
                 box['ok'] = True; return
             if not box.get('viol'):
                 box['viol'] = True
-                sess.violated(name, 'relative/' + lit, '%r does not denote the whole local day at offset %d' % (lit, off), {}, None, fam)
+                sess.violated(name, 'relative/' + lit, '%r does not denote the whole local day at offset %d' % (lit, off), {}, cli_replay_offset(lit, off), fam)
         ex.explore(run, on_path)
         if not box.get('viol') and not box.get('bad'):
             sess.discharged('relative %s = the whole local day at offset %d from the (symbolic) clock' % (lit, off), family=fam)
